@@ -307,26 +307,30 @@ class Builder:
         self.funcs[fn] = name
         wrapo = {"'{n}'": lambda i: i, "list['{n}']": lambda i: ['list', i], "'{n} | None'": lambda i: i,
                  "dict[str, '{n}']": lambda i: ['dict', ['"k"', i]]}[shape]
+        # a hot-reloaded module re-executes `@beartype class Name` again and AGAIN: with all_bt every (re)definition of
+        # the referent is decorated, and there are up to four of them with calls in between
+        all_bt = True if r.random() < 0.5 else None
         if name not in self.gens:
             if r.random() < 0.7:
                 self.ops.append(['call', fn, r.choice(['1', 'None', '[1]'])])           # fails: unresolved
             if r.random() < 0.4:
                 self.bear(['listref', f'c14mod.{name}'], '[1]', api=r.choice(['is_bearable', 'die_if_unbearable']))
-            self.defclass(name)
+            self.defclass(name, bt=all_bt)
         for _ in range(r.randint(1, 2)):
             self.ops.append(['call', fn, wrapo(['inst', name, self.any_gen(name)])])
         if r.random() < 0.6:
-            if r.random() < 0.35:
-                other = 'Bar' if name != 'Bar' else 'Foo'
-                self.defclass(other, bt=True)
-                self.defclass(other, bt=True)
-            if r.random() < 0.3:
-                self.ops.append(['clear'])
-            self.defclass(name)
-            for _ in range(r.randint(1, 2)):
-                self.ops.append(['call', fn, wrapo(['inst', name, self.any_gen(name)])])
-            if r.random() < 0.5:
-                self.bear(['listref', f'c14mod.{name}'], ['list', ['inst', name, -1]], api='is_bearable')
+            for _round in range(r.choice([1, 1, 2, 3])):
+                if r.random() < 0.35:
+                    other = 'Bar' if name != 'Bar' else 'Foo'
+                    self.defclass(other, bt=True)
+                    self.defclass(other, bt=True)
+                if r.random() < 0.3:
+                    self.ops.append(['clear'])
+                self.defclass(name, bt=all_bt)
+                for _ in range(r.randint(1, 2)):
+                    self.ops.append(['call', fn, wrapo(['inst', name, self.any_gen(name)])])
+                if r.random() < 0.5:
+                    self.bear(['listref', f'c14mod.{name}'], ['list', ['inst', name, -1]], api='is_bearable')
 
     def frag_noise(self):
         r = self.rng
